@@ -3,3 +3,4 @@
 cd /repo && git apply "$1" || exit 3
 cd /verif && ./check "$2" --tier "${3:-quick}" 2>&1 | tail -3 | cut -c1-260
 git -C /repo checkout -- .
+cd /verif && /venv/bin/python -m harness.extract >/dev/null 2>&1
